@@ -181,9 +181,45 @@ func c17(c *core.Ctx) {
 
 	// C17.sched
 	schedObj := schedExp.Object()
+	// an installation performed by a private helper on behalf of its callers (the installed value is the helper's
+	// parameter) is judged at each call site, with the argument as installed value
+	type installation struct {
+		fn   *ssa.Function
+		at   ssa.Instruction
+		vals []ssa.Value
+	}
+	var insts []installation
 	for _, s := range installers {
-		f := s.Fn
-		installed := appendedValues(s.Val)
+		vals := appendedValues(s.Val)
+		lifted := false
+		if len(vals) == 1 {
+			if p, isP := ssax.Strip(vals[0]).(*ssa.Parameter); isP {
+				idx := -1
+				for i, q := range s.Fn.Params {
+					if q == p {
+						idx = i
+					}
+				}
+				callers := ipCallers(s.Fn)
+				if o := s.Fn.Object(); o != nil && !o.Exported() && len(callers) > 0 && idx >= 0 {
+					for _, k := range callers {
+						for _, cs := range ssax.Calls(k) {
+							if cs.Common().StaticCallee() == s.Fn && idx < len(cs.Common().Args) {
+								insts = append(insts, installation{k, cs, []ssa.Value{cs.Common().Args[idx]}})
+								lifted = true
+							}
+						}
+					}
+				}
+			}
+		}
+		if !lifted {
+			insts = append(insts, installation{s.Fn, s.Instr, vals})
+		}
+	}
+	for _, s := range insts {
+		f := s.fn
+		installed := s.vals
 		// every path from the MapUpdate to a return must pass a `go scheduleExpiration(x)`
 		isSched := func(in ssa.Instruction) bool {
 			g, ok := in.(*ssa.Go)
@@ -192,17 +228,17 @@ func c17(c *core.Ctx) {
 			}
 			return ssax.Callee(g) == schedObj
 		}
-		reach, tr := ssax.Reach(f, s.Instr, func(in ssa.Instruction) bool { _, ok := in.(*ssa.Return); return ok }, isSched,
+		reach, tr := ssax.Reach(f, s.at, func(in ssa.Instruction) bool { _, ok := in.(*ssa.Return); return ok }, isSched,
 			func(a, b *ssa.BasicBlock) bool {
 				return len(a.Succs) == 2 && a.Succs[1] == b && ssax.InfeasibleEnumDefault(a)
 			})
 		key := fname(f) + "·install→go scheduleExpiration"
 		if reach {
-			if ok, why := inPlaceRekey(c, f, s, cg); ok {
-				c.Ob("C17.sched", key, pos(c, s.Instr), true, why)
+			if ok, why := inPlaceRekey(c, f, s.at, s.vals, cg); ok {
+				c.Ob("C17.sched", key, pos(c, s.at), true, why)
 				continue
 			}
-			c.Ob("C17.sched", key, pos(c, s.Instr), false, "a path from the insertion to return starts no expiration timer: the superseded token is accepted forever", trace(c, tr)...)
+			c.Ob("C17.sched", key, pos(c, s.at), false, "a path from the insertion to return starts no expiration timer: the superseded token is accepted forever", trace(c, tr)...)
 			continue
 		}
 		// argument must be (an alias of) the installed instance
@@ -220,7 +256,7 @@ func c17(c *core.Ctx) {
 				}
 			}
 		}
-		c.Ob("C17.sched", key, pos(c, s.Instr), okArg, detail)
+		c.Ob("C17.sched", key, pos(c, s.at), okArg, detail)
 	}
 
 	// C17.remove
@@ -249,11 +285,10 @@ func c17(c *core.Ctx) {
 // inPlaceRekey: the installed value is loaded from SecureChannel.openingInstance,
 // no caller chain resets that slot (so the same object is re-used for every
 // token), and this function overwrites the object's algo before installing it.
-func inPlaceRekey(c *core.Ctx, f *ssa.Function, s ssax.MapSite, cg *callgraph.Graph) (bool, string) {
+func inPlaceRekey(c *core.Ctx, f *ssa.Function, at ssa.Instruction, vals []ssa.Value, cg *callgraph.Graph) (bool, string) {
 	opening := field(c, "uasc", "SecureChannel", "openingInstance")
 	algo := field(c, "uasc", "channelInstance", "algo")
 	fromOpening := false
-	vals := appendedValues(s.Val)
 	for _, v := range vals {
 		for _, o := range ssax.Origins(v, cg, c.Depth) {
 			if o.Field == opening {
@@ -272,7 +307,7 @@ func inPlaceRekey(c *core.Ctx, f *ssa.Function, s ssax.MapSite, cg *callgraph.Gr
 			continue
 		}
 		fa := a.Instr.(*ssa.FieldAddr)
-		if isVal(fa.X, vals) && ssax.Dominates(a.Use, s.Instr) {
+		if isVal(fa.X, vals) && ssax.Dominates(a.Use, at) {
 			return true, "installs the re-used openingInstance object after overwriting its algo in place: the superseded keys no longer exist (whether traffic under the old token survives the overlap is C16's question)"
 		}
 	}
